@@ -19,6 +19,11 @@ def align_up(v, k):
     return ((v + m - 1) // m) * m
 
 
+def with_pre(strategy):
+    """Add the 'pre' key (0, 0, 0, 1 or 2 throw-away elaborations before simulating) to a dict spec."""
+    return st.tuples(strategy, st.sampled_from([0, 0, 0, 1, 2])).map(lambda t: dict(t[0], pre=t[1]))
+
+
 def weighted(*pairs):
     """one_of with integer weights. (one_of de-duplicates identical strategy *objects*, so repeating
     an object does not weight it; each repetition is wrapped in its own .map().)"""
@@ -74,13 +79,15 @@ def csr_layout(draw, max_regs=6, dws=CSR_DWS, overlaps=True):
     lay = {"dw": dw, "al": al, "regs": regs, "extra_aw": draw(st.integers(0, 1))}
     if overlaps:
         lay["ov"] = draw(st.sampled_from([None, None, 0, 1, 2, 3]))
+        # occasionally the whole layout sits at a high base address (beyond 8 address bits)
+        lay["base"] = draw(st.sampled_from([0, 0, 0, 0, 0, 0, 250, 256, 257, 300, 1000]))
     return lay
 
 
 def plan_csr_layout(lay):
     """Pure arithmetic: where each register is expected to be placed. Returns (aw, [(start, end)])."""
     dw, al = lay["dw"], lay["al"]
-    cursor = 0
+    cursor = align_up(lay.get("base", 0), al)
     out = []
     for r in lay["regs"]:
         size = max(1, -(-r["w"] // dw)) + r["pad"]
@@ -109,7 +116,11 @@ def build_csr_map(lay, reg_factory=MockReg, name_prefix="r"):
     for i, (r, (ps, pe)) in enumerate(zip(lay["regs"], plan)):
         reg = reg_factory(r["w"], r["acc"])
         size = max(1, -(-r["w"] // dw)) + r["pad"]
-        if r["mode"] == "imp":
+        if lay.get("base") and r["mode"] in ("imp", "nat"):
+            # same placement arithmetic, but stated explicitly because the layout does not start at 0
+            kw = {"alignment": ceil_log2(size)} if r["mode"] == "nat" else {}
+            s, e = mm.add_resource(reg, name=(f"{name_prefix}{i}",), size=size, addr=ps, **kw)
+        elif r["mode"] == "imp":
             s, e = mm.add_resource(reg, name=(f"{name_prefix}{i}",), size=size)
         elif r["mode"] == "nat":
             s, e = mm.add_resource(reg, name=(f"{name_prefix}{i}",), size=size, alignment=ceil_log2(size))
@@ -291,7 +302,9 @@ def csr_decoder_config(draw, max_subs=5, max_sub_aw=5, dws=CSR_DWS):
              "gap": draw(st.integers(0, 2)), "k": draw(st.integers(0, 4)),
              "pk": draw(st.integers(0, 9))} for _ in range(n)]
     return {"dw": dw, "al": al, "subs": subs, "extra_aw": draw(st.integers(0, 1)),
-            "squeeze": draw(st.integers(0, 11)) == 0, "shuffle": draw(st.integers(0, 2)) == 0}
+            "squeeze": draw(st.integers(0, 11)) == 0, "shuffle": draw(st.integers(0, 2)) == 0,
+            "early_fail": draw(st.lists(st.integers(0, 4), max_size=2)) if draw(st.integers(0, 3)) == 0 else [],
+            "ghosts": draw(st.sampled_from([0, 0, 0, 1, 2]))}
 
 
 def plan_windows(al, subs_maw, subs, shuffle=False):
@@ -327,13 +340,31 @@ def build_csr_decoder(cfg, ifaces=None, prefix="w"):
     if cfg["squeeze"] and aw > 1:
         aw -= 1
     dec = csr.Decoder(addr_width=aw, data_width=cfg["dw"], alignment=cfg["al"])
+    dec.verif_ctor = {"addr_width": aw, "data_width": cfg["dw"]}
     given, ifaces = ifaces, []
-    for i, (s, (ps, pe)) in enumerate(zip(cfg["subs"], plan)):
-        if given is not None:
-            iface = given[i]
-        else:
+    if given is None:
+        given = []
+        for i, s in enumerate(cfg["subs"]):
             iface = csr.Interface(addr_width=s["aw"], data_width=cfg["dw"], path=(f"sub{i}",))
             iface.memory_map = MemoryMap(addr_width=s["aw"], data_width=cfg["dw"])
+            given.append(iface)
+    # add() calls that are refused (address out of bounds) before the real ones: a refusal must leave nothing behind
+    dec.ghosts = []
+    for g in range(cfg.get("ghosts", 0)):
+        ghost = csr.Interface(addr_width=1, data_width=cfg["dw"], path=(f"ghost{g}",))
+        ghost.memory_map = MemoryMap(addr_width=1, data_width=cfg["dw"])
+        try:
+            dec.add(ghost, addr=1 << aw)
+        except ValueError:
+            dec.ghosts.append(ghost)
+    for j in cfg.get("early_fail", []):
+        if given:
+            try:
+                dec.add(given[j % len(given)], addr=1 << aw)
+            except ValueError:
+                pass
+    for i, (s, (ps, pe)) in enumerate(zip(cfg["subs"], plan)):
+        iface = given[i]
         kw = {}
         if s["named"]:
             kw["name"] = (f"{prefix}{i}",)
@@ -371,7 +402,9 @@ def wb_decoder_config(draw, max_subs=5, max_sub_aw=4):
         subs.append(sub)
     return {"dw": dw, "g": g, "feat": feat, "al": al, "subs": subs,
             "extra_aw": draw(st.integers(0, 1)), "squeeze": draw(st.integers(0, 11)) == 0,
-            "zero_aw": draw(st.integers(0, 3)) == 0, "shuffle": draw(st.integers(0, 2)) == 0}
+            "zero_aw": draw(st.integers(0, 3)) == 0, "shuffle": draw(st.integers(0, 2)) == 0,
+            "early_fail": draw(st.lists(st.integers(0, 4), max_size=2)) if draw(st.integers(0, 3)) == 0 else [],
+            "ghosts": draw(st.sampled_from([0, 0, 0, 1, 2]))}
 
 
 def wb_sub_map_aw(s):
@@ -397,14 +430,35 @@ def build_wb_decoder(cfg, ifaces=None, prefix="w"):
         aw = 0
     dec = wishbone.Decoder(addr_width=aw, data_width=cfg["dw"], granularity=cfg["g"],
                            features=cfg["feat"], alignment=cfg["al"])
+    dec.verif_ctor = {"addr_width": aw, "data_width": cfg["dw"], "granularity": cfg["g"], "features": cfg["feat"]}
     given, ifaces = ifaces, []
-    for i, (s, (ps, pe)) in enumerate(zip(cfg["subs"], plan)):
-        if given is not None:
-            iface = given[i]
-        else:
+    if given is None:
+        given = []
+        for i, s in enumerate(cfg["subs"]):
             iface = wishbone.Interface(addr_width=s["aw"], data_width=s["dw"], granularity=s["g"],
                                        features=s["feat"], path=(f"sub{i}",))
             iface.memory_map = MemoryMap(addr_width=wb_sub_map_aw(s), data_width=s["g"])
+            given.append(iface)
+    # refused add() calls (address out of bounds) before the real ones
+    dec.ghosts = []
+    oob = 1 << dec.bus.memory_map.addr_width
+    for g in range(cfg.get("ghosts", 0)):
+        ghost = wishbone.Interface(addr_width=0, data_width=cfg["dw"], granularity=cfg["g"],
+                                   features=[f for f in ("err", "rty", "stall") if f in cfg["feat"]], path=(f"ghost{g}",))
+        ghost.memory_map = MemoryMap(addr_width=max(1, gbits), data_width=cfg["g"])
+        try:
+            dec.add(ghost, addr=oob)
+        except ValueError:
+            dec.ghosts.append(ghost)
+    for j in cfg.get("early_fail", []):
+        if given:
+            f = given[j % len(given)]
+            try:
+                dec.add(f, addr=oob, sparse=cfg["subs"][j % len(given)].get("sparse", False))
+            except ValueError:
+                pass
+    for i, (s, (ps, pe)) in enumerate(zip(cfg["subs"], plan)):
+        iface = given[i]
         kw = {"sparse": s.get("sparse", False)}
         if s["named"]:
             kw["name"] = (f"{prefix}{i}",)
